@@ -59,7 +59,8 @@ def run(chk):
         "programs about which the property makes no claim are filtered by the generator and counted: declarations at "
         "module level or of a parameter, (nonlocal x) directly in the body of the let that binds x, global of a name "
         "let-bound in the same function, a declaration after a use that sits in a nested function (Python accepts, Hy "
-        "rejects), defn of a let-bound name",
+        "rejects), defn of a let-bound name, (nonlocal x) in a comprehension body unless the scope directly containing "
+        "the form assigns x (function) / at module level x is assigned at module level, setv inside a comprehension",
         "an expected 'no binding' program may be rejected with any SyntaxError; an expected 'declared after use' program "
         "must be rejected with a HySyntaxError saying so",
     ]
